@@ -31,3 +31,30 @@ def stripes(n, parts=None, rot=0):
 def in_child(fn):
     """run fn() in a fresh forked child and return its (picklable) result - keeps the parent free of any library state"""
     return run_chunks(lambda _i: fn(), [(0,), (1,)], 2)[0]
+
+
+def fork_call(fn):
+    """run fn() in a child created with os.fork (usable inside pool workers, which may not create pools); returns the pickled result"""
+    import pickle, struct
+    r, w = os.pipe()
+    pid = os.fork()
+    if pid == 0:
+        code = 0
+        try:
+            os.close(r)
+            try:
+                payload = pickle.dumps(("ok", fn()))
+            except BaseException as e:      # noqa
+                payload = pickle.dumps(("err", f"{type(e).__name__}: {e}"))
+            with os.fdopen(w, "wb") as f:
+                f.write(payload)
+        finally:
+            os._exit(code)
+    os.close(w)
+    with os.fdopen(r, "rb") as f:
+        data = f.read()
+    os.waitpid(pid, 0)
+    kind, val = pickle.loads(data)
+    if kind == "err":
+        raise RuntimeError(val)
+    return val
